@@ -244,6 +244,66 @@ Section Frames.
       rewrite R, (IH chunks' b' t m Hr Hm Hne' Hp Ht E'). reflexivity.
   Qed.
 
+  (* what the front of the buffer yields does not change when more octets arrive behind it *)
+  Lemma parse_frame_more_some b x fr rest :
+    parse_frame valid b = Ok (Some (fr, rest)) -> parse_frame valid (b ++ x) = Ok (Some (fr, rest ++ x)).
+  Proof.
+    unfold parse_frame. destruct (Nat.leb 18 (length b)) eqn:E18; [|discriminate]. apply Nat.leb_le in E18.
+    rewrite app_length. replace (Nat.leb 18 (length b + length x)) with true by (symmetry; apply Nat.leb_le; lia).
+    rewrite !nth_error_app1 by lia.
+    destruct (nth_error b 16) as [hi|]; [|discriminate]. destruct (nth_error b 17) as [lo|]; [|discriminate].
+    set (len := N.to_nat (hi * 256 + lo)%N). destruct (Nat.ltb len 19) eqn:E19; [discriminate|]. apply Nat.ltb_ge in E19.
+    destruct (Nat.leb (len - 18) (length b - 18)) eqn:El; [|discriminate]. apply Nat.leb_le in El.
+    replace (Nat.leb (len - 18) (length b + length x - 18)) with true by (symmetry; apply Nat.leb_le; lia).
+    assert (Ef : firstn len (b ++ x) = firstn len b).
+    { rewrite firstn_app. replace (len - length b) with 0 by lia. cbn [firstn]. now rewrite app_nil_r. }
+    rewrite Ef. destruct (valid (firstn len b)); [|discriminate]. intros H. apply Ok_inj in H. inversion H; subst.
+    rewrite skipn_app. replace (len - length b) with 0 by lia. reflexivity.
+  Qed.
+
+  Lemma parse_frame_more_err b x : parse_frame valid b = Err -> parse_frame valid (b ++ x) = Err.
+  Proof.
+    unfold parse_frame. destruct (Nat.leb 18 (length b)) eqn:E18; [|discriminate]. apply Nat.leb_le in E18.
+    rewrite app_length. replace (Nat.leb 18 (length b + length x)) with true by (symmetry; apply Nat.leb_le; lia).
+    rewrite !nth_error_app1 by lia.
+    destruct (nth_error b 16) as [hi|]; [|discriminate]. destruct (nth_error b 17) as [lo|]; [|discriminate].
+    set (len := N.to_nat (hi * 256 + lo)%N). destruct (Nat.ltb len 19) eqn:E19; [reflexivity|]. apply Nat.ltb_ge in E19.
+    destruct (Nat.leb (len - 18) (length b - 18)) eqn:El; [|discriminate]. apply Nat.leb_le in El.
+    replace (Nat.leb (len - 18) (length b + length x - 18)) with true by (symmetry; apply Nat.leb_le; lia).
+    assert (Ef : firstn len (b ++ x) = firstn len b).
+    { rewrite firstn_app. replace (len - length b) with 0 by lia. cbn [firstn]. now rewrite app_nil_r. }
+    rewrite Ef. destruct (valid (firstn len b)); [discriminate|reflexivity].
+  Qed.
+
+  Lemma read_all_S f b reads :
+    read_all valid (S f) b reads =
+    match read_frame valid b reads with
+    | Ok (Some (fr, rest, reads')) => let (l, e) := read_all valid f rest reads' in (fr :: l, e)
+    | Ok None => ([], RdEof) | Err => ([], RdErr) | Panic => ([], RdPanic) end.
+  Proof. reflexivity. Qed.
+
+  (* the reader's whole outcome - the frames delivered and how it ends - is a function of the octet stream alone: reading it in any
+     pieces gives what having it all in the buffer gives.  No well-formedness is assumed: this covers every stream of octets *)
+  Lemma read_all_canonical : forall fuel chunks b,
+    Forall nonempty chunks -> read_all valid fuel b chunks = read_all valid fuel (b ++ concat chunks) [].
+  Proof.
+    induction fuel as [|f IHf]; intros chunks b Hne; [reflexivity|].
+    revert b. induction chunks as [|c cs IHc]; intros b; [cbn [concat]; now rewrite app_nil_r|].
+    inversion Hne as [|? ? Hc Hcs]; subst. specialize (IHc Hcs).
+    rewrite !read_all_S. rewrite (read_frame_eq b (c :: cs)), (read_frame_eq (b ++ concat (c :: cs)) []).
+    pose proof (parse_frame_np b) as Hnp.
+    destruct (parse_frame valid b) as [[[fr rest]|]| |] eqn:Ep; [| | |congruence].
+    - rewrite (parse_frame_more_some b (concat (c :: cs)) fr rest Ep). now rewrite (IHf (c :: cs) rest Hne).
+    - destruct c as [|c0 c']; [now elim Hc|]. specialize (IHc (b ++ c0 :: c')). rewrite !read_all_S in IHc.
+      cbn [concat]. rewrite app_assoc. rewrite <- (read_frame_eq ((b ++ c0 :: c') ++ concat cs) []). exact IHc.
+    - now rewrite (parse_frame_more_err b (concat (c :: cs)) Ep).
+  Qed.
+
+  Lemma c09_reader_partition_proof : forall fuel chunks1 chunks2 b,
+    Forall nonempty chunks1 -> Forall nonempty chunks2 -> concat chunks1 = concat chunks2 ->
+    read_all valid fuel b chunks1 = read_all valid fuel b chunks2.
+  Proof. intros fuel c1 c2 b H1 H2 E. rewrite (read_all_canonical fuel c1 b H1), (read_all_canonical fuel c2 b H2). now rewrite E. Qed.
+
   Lemma read_frame_np : forall reads buf, read_frame valid buf reads <> Panic.
   Proof.
     induction reads as [|c cs IH]; intros buf; rewrite read_frame_eq; pose proof (parse_frame_np buf) as H;
